@@ -3,8 +3,8 @@ from contracts import candgraph
 
 LEVEL = "other"
 TRUSTED = ["a node_frame_dict passed in by the caller maps each frame with detections to the list of exactly its nodes, each once (what "
-           "nodes_from_segmentation / nodes_from_points_list build; PROVED of nodes_from_points_list(scale=None) and of _compute_node_frame_dict, which add_cand_edges calls "
-           "when no mapping is given; for nodes_from_segmentation checked by the bounded stand-in only)",
+           "nodes_from_segmentation / nodes_from_points_list build; PROVED of nodes_from_segmentation, nodes_from_points_list(scale=None) and of _compute_node_frame_dict, which "
+           "add_cand_edges calls when no mapping is given)", "skimage.measure.regionprops yields one region per non-zero label of a frame, each once, with deterministic area / centroid",
            "scipy KDTree: A.query_ball_tree(B, r)[i] lists exactly the indices j with distance(A[i], B[j]) <= r, each once; sorted(keys) is strictly "
            "increasing; networkx add_edge adds exactly that edge (models in contracts/candgraph.py)",
            "reference semantics of the bounded stand-in written from the property statement (native/pure_bounded.py)"]
@@ -16,13 +16,15 @@ EXPLANATION = ("PROVED (SMT, unbounded - every number of frames, detections per 
                "tree being reused only when it is the current frame's. Also proved: the real _compute_node_frame_dict builds exactly the frame -> nodes "
                "mapping that add_cand_edges relies on (keys = frames with a non-empty list; every node in the list of its frame exactly once); the real "
                "nodes_from_points_list (scale=None) creates exactly one node per point with the point's index as id, its time and position, no edges, "
-               "and returns that same kind of mapping - so for point lists the frame mapping is proved, not assumed. "
+               "and returns that same kind of mapping; the real "
+               "nodes_from_segmentation (labels unique across time, with and without a scale) creates exactly one node per non-zero label of every frame with the frame as its time, the label as seg id and "
+               "the area and centroid of its own region measured with the given spacing, no edges, and files every frame's labels under the frame - so the frame mapping is proved for both constructions. "
                "BOUNDED STAND-IN (node construction, IoU, and end-to-end cross-check): real compute_graph_from_points_list on every placement of <= 4 "
                "points into frames 0..3 (all gap patterns, pair-gap-pair) with positions from {0,1,3} and two distances, and compute_graph_from_seg (+IoU) "
                "on random small label videos with empty frames, against a brute-force reference.")
 ASSUMPTIONS = ["distances are abstracted by an uninterpreted predicate close(a, b, r); floats are not reasoned about",
                "bounded stand-in: exhaustive/sampled over the stated finite space, not a proof"]
-NOT_UNDER_CONTRACT = ["nodes_from_segmentation", "nodes_from_points_list with a scale (numpy broadcasting; scale=None is proved)", "add_iou", "_compute_ious",
+NOT_UNDER_CONTRACT = ["nodes_from_points_list with a scale (numpy broadcasting; scale=None is proved)", "add_iou", "_compute_ious",
                       "compute_graph_from_seg / compute_graph_from_points_list (compose the above)"]
 
 
